@@ -16,7 +16,8 @@
 // Usage: c17_fuzz run <seed> <quick|thorough> <workdir> <resultfile>
 //        c17_fuzz one <target> <workdir> <inputfile>        (replay of one input, in-process, no fork)
 // Result file lines:
-//   CASE <target> <index> <verdict> [detail]       verdict: rejected | accepted | inconsistent | killed
+//   CASE <target> <index> <verdict> [detail]       verdict: rejected | accepted | inconsistent | killed; a trailing token
+//                                                  `+signed-overflow` = UBSan reported a (non-fatal) signed integer overflow
 //   KILLED <target> <index> <how> <inputfile> <stderrfile>
 //   DONE inputs=<n> killed=<k> inconsistent=<m>
 #include "common.h"
@@ -91,11 +92,33 @@ spit(const std::string& fn, const std::string& content)
   f << content;
 }
 
+// number of bytes that can be read from `fn` (-1: no such file).  For a regular file its size; for anything else
+// (a header may name /dev/zero, /dev/null, a fifo ...) st_size says nothing, so the bytes are counted by reading, up to a cap.
 static long
 file_size(const std::string& fn)
 {
   struct stat st;
-  return stat(fn.c_str(), &st) == 0 ? static_cast<long>(st.st_size) : -1;
+  if (stat(fn.c_str(), &st) != 0)
+    return -1;
+  if (S_ISREG(st.st_mode))
+    return static_cast<long>(st.st_size);
+  if (S_ISDIR(st.st_mode))
+    return -1;
+  const long cap = 1L << 40; // "as much as anybody asks for" (an endless device), without reading for ever
+  const int fd = open(fn.c_str(), O_RDONLY | O_NONBLOCK);
+  if (fd < 0)
+    return -1;
+  long total = 0;
+  char buf[65536];
+  while (total < (1L << 22))
+    {
+      const ssize_t n = read(fd, buf, sizeof buf);
+      if (n <= 0)
+        break;
+      total += n;
+    }
+  close(fd);
+  return total >= (1L << 22) ? cap : total;
 }
 
 static std::vector<std::string>
@@ -912,8 +935,11 @@ main(int argc, char** argv)
               if (write(fd[1], msg.c_str(), msg.size()) < 0)
                 {}
               alarm(thorough ? 30 : 15);
-              const std::string verdict = run_target(work[k].t, work[k].text, workdir);
+              std::string verdict = run_target(work[k].t, work[k].text, workdir);
               alarm(0);
+              // UBSan signed-integer-overflow reports are not fatal (see checks/c17.py): tag the verdict
+              if (slurp(errfile).find("signed integer overflow") != std::string::npos)
+                verdict += " +signed-overflow";
               msg = "E " + std::to_string(k) + " " + one_line(verdict, 300) + "\n";
               if (write(fd[1], msg.c_str(), msg.size()) < 0)
                 {}
